@@ -86,7 +86,9 @@ def h_fft(ex):
         noise = fft_noise(ex, n, band, unique=unique, amp=amp, t0=ex.case.get('t0', 0.0))
         t_start = ex.case.get('t0', 0.0)
         n_all = n * unique
-        grid = [k / (n_all * DT) for k in range(n_all // 2 + 1)]
+        # numpy's own bin frequencies (k * (1/(n d)); k/(n d) differs in the last bit, which
+        # matters for a band edge that coincides with a bin)
+        grid = [float(f) for f in np.fft.rfftfreq(n_all, DT)]
         inband = [f for f in grid if band[0] <= f <= band[1]]
         ex.close([float(f) for f in noise.freqs], inband, 'published-frequencies==fft-bins-in-band',
                  tol=1e-12)
